@@ -149,6 +149,39 @@ def one_table(ctx, world, tno, forced=None):
         tn = rng.choice(["", "a<", "a<b>>", ",", "set<>", "x<y>z"])
         t = None
         data = bytes(rng.getrandbits(8) for _ in range(rng.randrange(0, 10)))
+    elif r < 0.8:
+        # a KNOWN head with an arity its codec rejects: the codecs check
+        # that only when decoding / encoding reaches the head
+        kind = "bad-arity"
+        leaf = lambda n: (n, [])   # noqa
+        a, b = cc.gen_type(rng, 1), cc.gen_type(rng, 1)
+        bad = rng.choice([
+            ("string", [leaf("int8_t")]), ("sequence", [a, b]),
+            ("sequence", []), ("set", []), ("mapping", [a]),
+            ("mapping", [a, b, a]), ("uint8_t", [leaf("bool")]),
+            ("UUID", [a]), ("Offset", [a]), ("bool", [a]), ("float", [a]),
+            ("set", [a, b])])
+        unk = (rng.choice(UNKNOWN_HEADS), [])
+        shape = rng.choice(["behind-unknown", "unknown-over-bad",
+                            "behind-empty", "reached-top",
+                            "reached-in-tuple"])
+        kt = cc.gen_type(rng, 1)
+        kb = cc.impl_encode(gtirb, cc.render(kt),
+                            cc.gen_value(rng, world, kt))
+        junk = bytes(rng.getrandbits(8) for _ in range(rng.randrange(0, 12)))
+        if shape == "behind-unknown":
+            t, data = ("tuple", [unk, bad]), junk
+        elif shape == "unknown-over-bad":
+            t, data = (unk[0], [bad]), junk
+        elif shape == "behind-empty":
+            t = ("tuple", [kt, (rng.choice(["sequence", "set"]), [bad])])
+            data = kb + (0).to_bytes(8, "little")
+        elif shape == "reached-top":
+            t, data = bad, junk
+        else:
+            t, data = ("tuple", [kt, bad]), kb + junk
+        ctx.count("bad-arity:" + shape)
+        tn = cc.render(t)
     else:
         kind = "partial"
         # known structure whose unknown parts sit behind empty containers or
@@ -230,8 +263,15 @@ def one_table(ctx, world, tno, forced=None):
                     script.append("read -> %s" % type(e).__name__)
                     lines.append("read")
                     from gtirb.serialization import TypeNameError
-                    impl.append("err:typename" if isinstance(e, TypeNameError)
-                                else "err:other:" + type(e).__name__)
+                    from gtirb.serialization import DecodeError
+                    if isinstance(e, TypeNameError):
+                        impl.append("err:typename")
+                    elif isinstance(e, DecodeError) and (
+                            "subtypes" in str(e) or "unpack" in str(e)):
+                        # a known head reached with an arity its codec rejects
+                        impl.append("err:unsupported")
+                    else:
+                        impl.append("err:other:" + type(e).__name__)
                     continue
                 was_read = True
                 lines.append("read")
@@ -304,8 +344,13 @@ def one_table(ctx, world, tno, forced=None):
             exc = None
         except (Exception, core.ImplTimeout) as e:   # noqa
             exc = type(e).__name__
-            impl.append({"TypeNameError": "err:typename",
-                         "EncodeError": "err:encode"}.get(exc, "err:" + exc))
+            if exc == "DecodeError" and ("subtypes" in str(e)
+                                         or "unpack" in str(e)):
+                impl.append("err:unsupported")   # bad arity reached
+            else:
+                impl.append({"TypeNameError": "err:typename",
+                             "EncodeError": "err:encode"}.get(
+                                 exc, "err:" + exc))
             stn = sbytes = None
         script.append("save -> %s" % (exc or "ok"))
         ctx.evaluations += 1
@@ -321,8 +366,8 @@ def one_table(ctx, world, tno, forced=None):
                 return fail({"kind": "untouched-rewritten", "table": kind},
                             "untouched table %r was not written back byte "
                             "for byte (%s)" % (load_tn, exc or "bytes differ"))
-        elif kind in ("unknown-top", "partial") and not modified \
-                and not type_changed:
+        elif kind in ("unknown-top", "partial", "bad-arity") \
+                and not modified and not type_changed:
             if exc or sbytes != load_bytes or stn != load_tn:
                 # is the change explained by "the decoded value was
                 # re-encoded" (order of set elements, duplicates, bool bytes)?
